@@ -659,6 +659,22 @@ def c14(tier, replay_file=None):
         for b in ([], [0], [255, 254], [123], [123, 125], list(b'{"mappings":'), list(b'{"mappings":[{"from":"A","to":"B"}]}\x00'), list(b'\xef\xbb\xbf{"mappings":[]}'),
                   list(b'{"mappings":[]}{"mappings":[]}'), list(b'[' * 200), list(b'{"mappings":[{"from":"\\ud800","to":"B"}]}')):
             tcases.append({"id": "t%d" % (len(tcases) + 1), "kind": "text", "bytes": b})
+        # byte-level damage of valid files: one or two random insertions / deletions / replacements with characters JSON cares about
+        alphabet = b'{}[]",:\\ \n\t0123456789.-+eEtrufalsn@AZaz_\x00\x7f\xc3\xa9\xff'
+        for si, sd_ in enumerate(seeds[:25 if tier == "quick" else 150]):
+            raw = json.dumps(sd_, separators=(",", ":")).encode()
+            for _ in range(120 if tier == "quick" else 400):
+                b = bytearray(raw)
+                for _ in range(rng.choice([1, 1, 2])):
+                    pos = rng.randrange(len(b) + 1)
+                    op = rng.randrange(3)
+                    if op == 0 and pos < len(b):
+                        del b[pos]
+                    elif op == 1:
+                        b.insert(pos, rng.choice(alphabet))
+                    elif pos < len(b):
+                        b[pos] = rng.choice(alphabet)
+                tcases.append({"id": "t%d" % (len(tcases) + 1), "kind": "text", "bytes": list(b)})
         tpath = os.path.join(wd, "tcases.ndjson")
         write_ndjson(tpath, tcases)
         log("[gen] %d valid programs, %d mutated values from %d seeds, %d texts, %.1fs" % (nvalid, len(vcases) - nvalid, len(seeds), len(tcases), time.time() - t0))
@@ -713,7 +729,7 @@ def c14(tier, replay_file=None):
         res.coverage = {
             "evaluations": judged + stats["layouts"], "distinct_nontrivial": nontriv,
             "rule": "loader: every program of the C13 family in two spellings; structure-aware mutations (%d replacement values, deletion, duplication/extra field) at every JSON path of %d seed "
-                    "programs (family members, built-ins, README examples); every prefix of %d pretty-printed texts and a few non-JSON byte strings, through load_layout_from_file. "
+                    "programs (family members, built-ins, README examples); every prefix of %d pretty-printed texts, a few non-JSON byte strings and random byte-level damage (insert/delete/replace) of compact texts, through load_layout_from_file. "
                     "Non-trivial = inputs the loader accepted. Mapper: %d distinct accepted layouts (of %d) installed in the real mapper and driven with every event sequence over "
                     "their first keys + a foreign key, <= 3 keys held (states/transitions below); a panic anywhere is recorded under catch_unwind and judged by TLC."
                     % (len(MUT_VALUES), len(seeds), 20 if tier == "quick" else 120, len(jobs), len(lays)),
